@@ -280,8 +280,8 @@ def run(ctx):
     if nd:
         ctx.cov["model_divergence_count"] = ctx.cov.get("model_divergence_count", 0) + nd
         print("NOTE C08: %d getctype texts differ from the name-builder model (first: %s)" % (nd, notes[0]))
-    # code -> spec: TLC re-reads the real texts with the ideal reader: a seeded sample (2 500 quick / 40 000 thorough)
-    cap = 2500 if quick else 40000
+    # code -> spec: TLC re-reads the real texts with the ideal reader: a seeded sample (1 500 quick / 40 000 thorough)
+    cap = 1500 if quick else 40000
     vrecs = recs if len(recs) <= cap else rng.sample(recs, cap)
     verdicts, diags = tlc_validate(ctx, vrecs, "pairs")
     report(ctx, vrecs, verdicts, diags, "pair")
@@ -291,7 +291,7 @@ def run(ctx):
     suffixes = sorted({x for _p, _T, x, *_ in rows})
     starts = sorted({name for name, T, x, U in items if T["k"] != "void"})
     citems = []
-    for i in range(300 if quick else 6000):
+    for i in range(200 if quick else 6000):
         citems.append((rng.choice(env.modes), rng.choice(starts), [rng.choice(suffixes) for _ in range(rng.randint(2, 9))]))
     cres = pe.pool_map(env, FNS, "chain", citems, nproc=8, chunk=200)
     crecs = []
